@@ -172,7 +172,7 @@ func windowDiscipline(r *an.Run) {
 			want := map[string][][]string{
 				lw + "paymentDescriptor.setCommitHeight":   {{"Add", "NoOpAdd"}, {"Settle", "Fail", "MalformedFail"}, {"FeeUpdate"}},
 				lw + "paymentDescriptor.toLogUpdate":       {{"Add", "NoOpAdd"}, {"Settle"}, {"Fail"}, {"MalformedFail"}, {"FeeUpdate"}},
-				lw + "LightningChannel.createCommitDiff":   {{"Add"}, {"Settle", "Fail", "MalformedFail"}, {"FeeUpdate"}},
+				lw + "LightningChannel.createCommitDiff":   {{"Add", "NoOpAdd"}, {"Settle", "Fail", "MalformedFail"}, {"FeeUpdate"}},
 				lw + "LightningChannel.evaluateHTLCView#1": {{"Settle", "Fail", "MalformedFail"}},
 				lw + "LightningChannel.evaluateHTLCView#2": {{"Add", "NoOpAdd"}, {"FeeUpdate"}, {"Settle", "Fail", "MalformedFail"}},
 			}
